@@ -151,6 +151,19 @@ def run(ctx):
         ctx.ob("R3", "%s|buffer cleared on error" % pr.short, ok, pr.where(),
                "every path from the Err edge of be_packet to return clears raw_bytes (the iterator then ends): %s" % ok)
 
+    # ---------------------------------------------------------------- R5 (shared with C06-R2)
+    from rules.C06 import accept_threshold
+    ctx.rule("R5", "length guards before header-protection removal: both packet readers reject payloads shorter than 4 + 16 bytes "
+                   "before remove_protection_of_*_packet slices `payload[4..4+sample_len]`")
+    for name in ("qbase::packet::io::be_payload", "qbase::packet::io::be_packet"):
+        b = ctx.anchor("R5", name)
+        if b:
+            r = accept_threshold(b, "UnderSampling")
+            ok = len(r) == 1 and r[0][0] is not None and r[0][0] >= 20
+            ctx.ob("R5", "%s|payload >= 20 before sampling" % b.short, ok, b.where(),
+                   "guard(s) leading to UnderSampling: %s; remove_protection_of_*_packet does split_at_mut(4) and "
+                   "sample[..16] without its own check, so a smaller threshold is an out-of-bounds panic on an "
+                   "unauthenticated datagram" % [(x[0], x[1]) for x in r])
     # ---------------------------------------------------------------- R4
     fr = prog.find(r"<impl core::convert::From<qbase::frame::error::Error> for qbase::error::QuicError>::from$")
     ctx.floor("R4", "From<frame::Error> for QuicError", len(fr), 1)
